@@ -108,6 +108,17 @@ def binary_delim(scn, res=None):
     return False
 
 
+LISTEN_ONLY = bytes([8, 0, 4, 0, 0])
+
+
+def listen_only(scn, res=None):
+    """coordinate: did the server execute a force-listen-only request (FC 08 / 04) in this run (without a
+    result: does the scenario ask for one)?  The Twisted front-ends then ignore all further input."""
+    if res is not None and any(e['pdu'] == LISTEN_ONLY for e in res.execs):
+        return True
+    return any(r.get('raw') is None and r.get('pdu') == LISTEN_ONLY.hex() for reqs in scn['conns'] for r in reqs)
+
+
 def runs_of(addrs):
     """contiguous runs [(start, length)] of a set of ints"""
     out = []
@@ -303,6 +314,16 @@ OPAQUE_REQS = [
     bytes([8, 0, 0, 0x12, 0x34]), bytes([8, 0, 2, 0, 0]), bytes([8, 0, 0x0B, 0, 0]),
     bytes([43, 14, 1, 0]), bytes([43, 14, 2, 0]),
     bytes([24, 0, 4]),
+    # diagnostics: restart communications, change ASCII delimiter, force listen only (never answered),
+    # clear counters, the counter reads, clear overrun, Modbus Plus statistics get / clear
+    bytes([8, 0, 1, 0, 0]), bytes([8, 0, 1, 0xFF, 0]), bytes([8, 0, 3, 0x0A, 0]), bytes([8, 0, 4, 0, 0]),
+    bytes([8, 0, 10, 0, 0]), bytes([8, 0, 12, 0, 0]), bytes([8, 0, 13, 0, 0]), bytes([8, 0, 14, 0, 0]),
+    bytes([8, 0, 15, 0, 0]), bytes([8, 0, 16, 0, 0]), bytes([8, 0, 17, 0, 0]), bytes([8, 0, 18, 0, 0]),
+    bytes([8, 0, 20, 0, 0]), bytes([8, 0, 21, 0, 3]), bytes([8, 0, 21, 0, 4]),
+    # file records (one and two sub-requests), device identification regular / extended / one object
+    bytes([20, 7, 6, 0, 1, 0, 2, 0, 2]), bytes([20, 14, 6, 0, 4, 0, 1, 0, 2, 6, 0, 3, 0, 9, 0, 2]),
+    bytes([21, 9, 6, 0, 4, 0, 7, 0, 1, 0x12, 0x34]), bytes([21, 11, 6, 0, 1, 0, 2, 0, 2, 1, 2, 3, 4]),
+    bytes([43, 14, 3, 0]), bytes([43, 14, 4, 0]), bytes([43, 14, 4, 2]), bytes([43, 14, 1, 1]),
 ]
 
 
@@ -398,6 +419,8 @@ def gen_scenario(rng, profile):
             seen_reqs.add(key)
             if framing == 'rtu' and codec.request_len(pdu) == -1:
                 continue        # an RTU receiver cannot size a frame of unknown function code
+            if pdu == LISTEN_ONLY and not profile.get('listen_only'):
+                continue        # listen-only mode: only where the property speaks of it (C09, C12)
             if framing == 'binary' and has_delim(codec.frame('binary', u, pdu)[1:-1]) \
                     and rng.random() < profile.get('binary_delim_avoid', 0.93):
                 continue        # steer most runs away from the known binary-escaping finding
